@@ -67,6 +67,10 @@ func init() {
 			fr.i.sched.maxPreempt = int(asInt64(args[0]))
 			return nil
 		},
+		"ExploreMemory": func(fr *frame, args []value) value {
+			fr.i.sched.racy = args[0].(bool)
+			return nil
+		},
 		"RunSpawned": verifRunSpawned,
 		"NoSpawn": func(fr *frame, args []value) value {
 			fr.i.sched.noSpawn = args[0].(bool)
